@@ -61,7 +61,7 @@ CLAIMS = {
              "(C03_substring_ascii_score / _unicode_score), the greedy matcher (C03_greedy_ascii_score / _unicode_score) and hence EVERY path of fuzzy_match - contiguous shortcut, "
              "matrix, greedy fallback - return the scheme's value of the alignment they report (C03_fuzzy_all_paths_ascii / _unicode); fuzzy_match_correct_ascii / _unicode put C01, C02 "
              "and C03 into one statement about fuzzy_match (matches iff subsequence; then a valid witness whose scheme value is the score). One-character needles: C03_fuzzy_one_char_ascii / _unicode (from the one-character optimum of C04). Companion file C03_GreedyEntry: the fuzzy_match_greedy entry point "
-             "(length guards, greedy-only prefilter, contiguous shortcut, inner routine) returns the scheme's value of the alignment it reports (C03_greedy_entry_ascii / _unicode). Companion file C03_Translated: the unrolled first iteration, the two branches of the loop body and the prefer_prefix tail of calculate_score, "
+             "(length guards, greedy-only prefilter, contiguous shortcut, inner routine) returns the scheme's value of the alignment it reports (C03_greedy_entry_ascii / _unicode). Companion file C03_BonusTranslated: Config::bonus_for, translated from score.rs (and the CharClass declaration order from chars.rs) on every run, is the model's bonusFor. Companion file C03_Translated: the unrolled first iteration, the two branches of the loop body and the prefer_prefix tail of calculate_score, "
              "translated from score.rs on every run by symbolic execution of their statements (Gen/ScoreLoop.lean), are the model's state machine stInit / stepMatch / stepSkip / prefixBonusCs the theorems are about. The compressed matrix of "
              "fuzzy_optimal.rs equals the recurrence (C04_Compressed: optimalImpl_eq_optimalDP, C04_compressed_matrix_correct - with the u16/u8 arithmetic read as exact, which C03_fits_u16 justifies for needles up to 2519 characters). The oracle "
              "evaluates score = scheme on the reported indices for all six algorithms on every case; the u16 saturation for needles > 2520 characters is a KNOWN-FINDING."),
